@@ -1,10 +1,23 @@
-/* Driver for C07: seeded random multi-threaded histories of enter / leave / group_async /
- * notify / wait (NOW, short timed, FOREVER) over repeated generations of one dispatch_group,
- * under schedule perturbation, plus a STEERED scenario reproducing finding F2 (DESIGN.md
- * section 9, Appendix C).  Emits an ndjson trace for GroupTrace.tla (every os_atomic access to
- * dg_state / dg_bits / dg_gen / dg_notify_head / dg_notify_tail, the do_next links of the
- * notify continuations, the futex calls on dg_gen, and the API events in the same total
- * order) and evaluates the API-level oracles of the property itself.
+/* Driver for C07: seeded random multi-threaded histories of enter / leave / group_async[_f] /
+ * notify[_f] / wait (NOW, short timed, FOREVER) over repeated generations of SEVERAL dispatch_groups
+ * alive at once (2 or 3 per execution), under schedule perturbation, plus a STEERED scenario
+ * reproducing finding F2 (DESIGN.md section 9, Appendix C).
+ * The blocks of dispatch_group_async items do work themselves (decided by the seed): dispatch_group_async[_f]
+ * to ANOTHER group and to their own group (nesting depth <= 2), dispatch_group_notify[_f] on either group,
+ * plain dispatch_async[_f], dispatch_group_enter/leave pairs on either group -- the library must leave
+ * the group the item ENTERED when the block returns, whatever the block did in between.
+ * Emits an ndjson trace for GroupTrace.tla (every os_atomic access to dg_state / dg_bits / dg_gen /
+ * dg_notify_head / dg_notify_tail of every group, tagged with the group; the do_next links of the
+ * notify continuations, the futex calls on dg_gen, and the API events -- among them ItemStart / ItemEnd
+ * around the client callout of every item -- in the same total order) and evaluates the API-level
+ * oracles of the property itself, all sound for every schedule:
+ *  - per group: wait()==0 only if the count was zero at some moment of the call (explicit enters: shadow
+ *    count; items and enters: a token entered before the call whose leave cannot have started yet when the
+ *    call returned); untimed wait never returns non-zero; timed wait not before its timeout;
+ *  - a notification block that runs while work entered before its notify call has not started to leave is
+ *    reported (early_blocks) -- classified by the trace validation (known finding F2 or a violation);
+ *  - at quiescence every group is back to count zero / no flags, every item, plain block and notification
+ *    block ran exactly once; no crash, no hang.
  *
  * usage: drv_group OUT SEED PERTURB EXECS OPS STEERED
  * exit: 0 ok, 2 API oracle failed, 70 crash, 71 hang (waiter / notification left behind) */
@@ -20,26 +33,41 @@
 #include "verif_rt.h"
 
 #define NT 3
-#define MAXH 8           /* notifications per execution */
+#define NG 3             /* groups alive in every execution (an execution works on the first 2 or on all 3) */
+#define MAXH 12          /* notifications per execution */
 #define MAXTOK 60        /* enter tokens per execution (bit mask) */
+#define MAXPLAIN 64      /* plain dispatch_async items per execution */
 #define MAXTID 512
 
 static int g_execs = 20, g_ops = 12, g_steered = 1;
 static uint64_t g_seed;
-static dispatch_group_t g_grp;
-static dispatch_queue_t g_nq, g_wq;
-static int g_obj;
+static dispatch_group_t g_grp[NG];
+static int g_objs[NG];                /* == 0..NG-1: the groups are registered first in every execution */
+static int g_ng = 2;                  /* groups the current execution works on */
+static dispatch_queue_t g_nq, g_wq[2];
 static pthread_barrier_t g_bar;
 static _Atomic int g_fail;
 static _Atomic int g_exec_kind;       /* 0 random, 1 steered F2 scenario */
 
-/* ---- harness-side shadows (conservative: can only under-approximate the count) ---- */
-static _Atomic uint64_t g_shadow;     /* high 32: number of times `sure` hit zero; low 32: sure */
-static _Atomic uint64_t g_sure_mask;  /* tokens surely entered and surely not yet left (own tokens) */
-static _Atomic int g_next_tok, g_next_h;
+/* ---- harness-side shadows (conservative: can only under-approximate the count), per group ---- */
+static _Atomic uint64_t g_shadow[NG];   /* high 32: number of times `sure` hit zero; low 32: sure (explicit enters) */
+/* tokens (explicit enters AND dispatch_group_async items, top-level and nested):
+ * entered: the enter has surely happened (set after the entering call returned)
+ * done:    the leave may have started (set before dispatch_group_leave is called / at the end of the item's block,
+ *          i.e. before the library's leave for that item) */
+static _Atomic uint64_t g_entered[NG], g_done[NG];
+static _Atomic int g_next_tok, g_next_h, g_next_plain;
+static _Atomic int g_pending;          /* blocks submitted (group items and plain ones) that have not finished */
 static _Atomic uint64_t g_snap[MAXH];
+static _Atomic int g_hgrp[MAXH];
 static _Atomic int g_ran[MAXH], g_registered[MAXH], g_early[MAXH];
-static _Atomic int g_early_total, g_f2_steer_hits;
+static _Atomic int g_early_total, g_f2_steer_hits, g_nested_cross, g_nested_total;
+
+struct item_s { int tok, g, depth, used; unsigned delay; uint64_t rnd; _Atomic int ran; };
+static struct item_s g_items[MAXTOK + 1];
+struct plain_s { int id, used; _Atomic int ran; };
+static struct plain_s g_plain[MAXPLAIN];
+static int g_hidx[MAXH];
 
 /* ---- steering of the F2 schedule ---- */
 static __thread int t_in_notify;
@@ -53,156 +81,262 @@ static uint64_t now_ns(void)
 	return (uint64_t)ts.tv_sec * 1000000000ull + (uint64_t)ts.tv_nsec;
 }
 
+static uint64_t mix(uint64_t x)
+{
+	x += 0x9e3779b97f4a7c15ull; x = (x ^ (x >> 30)) * 0xbf58476d1ce4e5b9ull;
+	x = (x ^ (x >> 27)) * 0x94d049bb133111ebull; return x ^ (x >> 31);
+}
+
 static void oracle_fail(const char *what, long a, long b)
 {
 	fprintf(stderr, "ORACLE-FAIL C07 %s a=%ld b=%ld\n", what, a, b);
 	atomic_store(&g_fail, 1);
 }
 
-static void shadow_inc(void) { atomic_fetch_add(&g_shadow, 1); }
-static void shadow_dec(void)
+static void shadow_inc(int g) { atomic_fetch_add(&g_shadow[g], 1); }
+static void shadow_dec(int g)
 {
-	uint64_t o = atomic_load(&g_shadow), n;
+	uint64_t o = atomic_load(&g_shadow[g]), n;
 	do {
 		n = o - 1;
 		if ((uint32_t)n == 0) n += 1ull << 32;
-	} while (!atomic_compare_exchange_weak(&g_shadow, &o, n));
+	} while (!atomic_compare_exchange_weak(&g_shadow[g], &o, n));
+}
+
+static int new_tok(void)
+{
+	int o = atomic_load(&g_next_tok);
+	do { if (o >= MAXTOK) return 0; } while (!atomic_compare_exchange_weak(&g_next_tok, &o, o + 1));
+	return o + 1;
 }
 
 /* ------------------------------- API wrappers ------------------------------- */
-static int do_enter(void)
+/* API events: a = token / handle / kind, c = group */
+static int do_enter(int g)
 {
-	int tok = atomic_fetch_add(&g_next_tok, 1) + 1;
-	vrt_api("CallEnter", g_obj, tok, 0, 0);
-	dispatch_group_enter(g_grp);
-	vrt_api("RetEnter", g_obj, tok, 0, 0);
-	if (tok <= MAXTOK) atomic_fetch_or(&g_sure_mask, 1ull << tok);
-	shadow_inc();
+	int tok = new_tok();
+	if (!tok) return 0;
+	vrt_api("CallEnter", g_objs[g], tok, 0, g);
+	dispatch_group_enter(g_grp[g]);
+	vrt_api("RetEnter", g_objs[g], tok, 0, g);
+	atomic_fetch_or(&g_entered[g], 1ull << tok);
+	shadow_inc(g);
 	return tok;
 }
 
-static void do_leave(int tok)
+static void do_leave(int g, int tok)
 {
-	shadow_dec();
-	if (tok <= MAXTOK) atomic_fetch_and(&g_sure_mask, ~(1ull << tok));
-	vrt_api("CallLeave", g_obj, tok, 0, 0);
-	dispatch_group_leave(g_grp);
-	vrt_api("RetLeave", g_obj, tok, 0, 0);
+	shadow_dec(g);
+	atomic_fetch_or(&g_done[g], 1ull << tok);
+	vrt_api("CallLeave", g_objs[g], tok, 0, g);
+	dispatch_group_leave(g_grp[g]);
+	vrt_api("RetLeave", g_objs[g], tok, 0, g);
 }
 
-static void do_async(unsigned delay_us)
+static void nested_ops(struct item_s *it);
+
+/* the block of a dispatch_group_async item.  ItemStart / ItemEnd bracket the client callout: the library
+ * calls dispatch_group_leave (on the group the item entered) right after this function returns */
+static void item_body(struct item_s *it)
 {
-	int tok = atomic_fetch_add(&g_next_tok, 1) + 1;
-	vrt_api("CallAsync", g_obj, tok, 0, 0);
-	dispatch_group_async(g_grp, g_wq, ^{
-		if (delay_us) usleep(delay_us);
-		/* the library calls dispatch_group_leave right after this block returns */
-		vrt_api("AsyncEnd", g_obj, tok, 0, 0);
-	});
-	vrt_api("RetAsync", g_obj, tok, 0, 0);
+	vrt_api("ItemStart", g_objs[it->g], it->tok, 0, it->g);
+	if (atomic_fetch_add(&it->ran, 1) != 0) oracle_fail("dispatch_group_async block ran twice", it->tok, it->g);
+	if (it->depth < 2) nested_ops(it);
+	if (it->delay) usleep(it->delay);
+	atomic_fetch_or(&g_done[it->g], 1ull << it->tok);
+	atomic_fetch_sub(&g_pending, 1);
+	vrt_api("ItemEnd", g_objs[it->g], it->tok, 0, it->g);
+}
+static void item_func(void *ctxt) { item_body((struct item_s *)ctxt); }
+
+/* dispatch_group_async[_f](g, q, ...) of an item at nesting depth `depth` (0 = submitted by a client thread) */
+static int do_async(int g, int depth, uint64_t rnd)
+{
+	int tok = new_tok();
+	if (!tok) return 0;
+	struct item_s *it = &g_items[tok];
+	it->tok = tok; it->g = g; it->depth = depth; it->rnd = rnd; it->used = 1;
+	it->delay = (unsigned)((rnd >> 20) % 3 == 0 ? 0 : (rnd >> 24) % 400);
+	dispatch_queue_t q = g_wq[(rnd >> 3) & 1];
+	atomic_fetch_add(&g_pending, 1);
+	vrt_api("CallAsync", g_objs[g], tok, depth, g);
+	if (rnd & 1) dispatch_group_async_f(g_grp[g], q, it, item_func);
+	else dispatch_group_async(g_grp[g], q, ^{ item_body(it); });
+	vrt_api("RetAsync", g_objs[g], tok, depth, g);
+	atomic_fetch_or(&g_entered[g], 1ull << tok);
+	return tok;
 }
 
-static int do_notify(void)
+static void plain_body(struct plain_s *p)
+{
+	if (atomic_fetch_add(&p->ran, 1) != 0) oracle_fail("dispatch_async block ran twice", p->id, 0);
+	atomic_fetch_sub(&g_pending, 1);
+}
+static void plain_func(void *ctxt) { plain_body((struct plain_s *)ctxt); }
+
+static void do_plain(uint64_t rnd)
+{
+	int id = atomic_fetch_add(&g_next_plain, 1);
+	if (id >= MAXPLAIN) return;
+	struct plain_s *p = &g_plain[id];
+	p->id = id; p->used = 1;
+	atomic_fetch_add(&g_pending, 1);
+	if (rnd & 1) dispatch_async_f(g_wq[(rnd >> 3) & 1], p, plain_func);
+	else dispatch_async(g_wq[(rnd >> 3) & 1], ^{ plain_body(p); });
+}
+
+static void notify_body(int h)
+{
+	int g = atomic_load(&g_hgrp[h]);
+	uint64_t still = atomic_load(&g_snap[h]) & ~atomic_load(&g_done[g]);
+	int early = still != 0;
+	/* C07 "not before all work entered before the notify call has left".  Not judged here:
+	 * the trace validation classifies it (known finding F2 vs. anything else). */
+	if (early) { atomic_store(&g_early[h], 1); atomic_fetch_add(&g_early_total, 1); }
+	vrt_api("NotifyRan", g_objs[g], h, early, g);
+	if (atomic_fetch_add(&g_ran[h], 1) != 0) oracle_fail("notification block ran twice", h, g);
+}
+static void notify_func(void *ctxt) { notify_body(*(int *)ctxt); }
+
+static int do_notify(int g, int form_f)
 {
 	int h = atomic_fetch_add(&g_next_h, 1);
 	if (h >= MAXH) return -1;
-	/* snapshot of the work surely entered before the notify call, taken BEFORE the call */
-	atomic_store(&g_snap[h], atomic_load(&g_sure_mask));
+	/* snapshot of the work surely entered (and surely not yet being left) before the notify call,
+	 * taken BEFORE the call */
+	uint64_t e = atomic_load(&g_entered[g]);
+	atomic_store(&g_snap[h], e & ~atomic_load(&g_done[g]));
+	atomic_store(&g_hgrp[h], g);
 	atomic_store(&g_registered[h], 1);
-	vrt_api("CallNotify", g_obj, h, 0, 0);
+	vrt_api("CallNotify", g_objs[g], h, 0, g);
 	t_in_notify = 1;
-	dispatch_group_notify(g_grp, g_nq, ^{
-		uint64_t still = atomic_load(&g_snap[h]) & atomic_load(&g_sure_mask);
-		int early = still != 0;
-		/* C07 "not before all work entered before the notify call has left".  Not judged here:
-		 * the trace validation classifies it (known finding F2 vs. anything else). */
-		if (early) { atomic_store(&g_early[h], 1); atomic_fetch_add(&g_early_total, 1); }
-		vrt_api("NotifyRan", g_obj, h, early, 0);
-		if (atomic_fetch_add(&g_ran[h], 1) != 0) oracle_fail("notification block ran twice", h, 0);
-	});
+	if (form_f) dispatch_group_notify_f(g_grp[g], g_nq, &g_hidx[h], notify_func);
+	else dispatch_group_notify(g_grp[g], g_nq, ^{ notify_body(h); });
 	t_in_notify = 0;
-	vrt_api("RetNotify", g_obj, h, 0, 0);
+	vrt_api("RetNotify", g_objs[g], h, 0, g);
 	return h;
 }
 
 static const char *KN[] = { "forever", "now", "timed" };
 
-static long do_wait(int kind, uint64_t tmo_ns)
+static long do_wait(int g, int kind, uint64_t tmo_ns)
 {
 	dispatch_time_t t = kind == 0 ? DISPATCH_TIME_FOREVER : kind == 1 ? DISPATCH_TIME_NOW : 0;
 	uint64_t t0 = now_ns();
 	if (kind == 2) t = dispatch_time(DISPATCH_TIME_NOW, (int64_t)tmo_ns);
-	uint64_t s0 = atomic_load(&g_shadow);
-	vrt_api("CallWait", g_obj, kind, 0, 0);
-	long r = dispatch_group_wait(g_grp, t);
-	vrt_api("RetWait", g_obj, r != 0, 0, 0);
-	uint64_t s1 = atomic_load(&g_shadow);
+	uint64_t s0 = atomic_load(&g_shadow[g]);
+	uint64_t e0 = atomic_load(&g_entered[g]);
+	vrt_api("CallWait", g_objs[g], kind, 0, g);
+	long r = dispatch_group_wait(g_grp[g], t);
+	vrt_api("RetWait", g_objs[g], r != 0, 0, g);
+	uint64_t d1 = atomic_load(&g_done[g]);
+	uint64_t s1 = atomic_load(&g_shadow[g]);
 	uint64_t t1 = now_ns();
 	if (r == 0) {
 		/* some own token was entered-and-not-being-left at every moment of the call */
 		if ((uint32_t)s0 > 0 && (s0 >> 32) == (s1 >> 32))
 			oracle_fail("wait returned 0 although the count was non-zero during the whole call",
 					(long)(uint32_t)s0, (long)(uint32_t)s1);
+		/* an item / enter that had entered this group before the call has not even started to leave now */
+		if (e0 & ~d1)
+			oracle_fail("wait returned 0 although work entered before the call has not left (group, token mask)",
+					g, (long)(e0 & ~d1));
 	} else {
-		if (kind == 0) oracle_fail("untimed wait returned non-zero", r, 0);
+		if (kind == 0) oracle_fail("untimed wait returned non-zero", r, g);
 		if (kind == 2 && t1 - t0 < tmo_ns)
 			oracle_fail("timed wait returned non-zero before the full timeout", (long)(t1 - t0), (long)tmo_ns);
 	}
 	return r;
 }
 
+/* what the block of a dispatch_group_async item does itself (decided by the item's random word, i.e. by the
+ * seed): submit work to ANOTHER group / the same group, register notifications, plain asyncs, enter+leave */
+static void nested_ops(struct item_s *it)
+{
+	uint64_t r = it->rnd;
+	int n = (int)((r >> 12) % 10);
+	n = n < 3 ? 0 : n < 8 ? 1 : 2;
+	for (int i = 0; i < n; i++) {
+		r = mix(r + (uint64_t)i);
+		unsigned k = (unsigned)(r % 100), x = (unsigned)(r >> 8);
+		int other = (it->g + 1 + (int)(x % (unsigned)(g_ng - 1))) % g_ng;
+		int any = (x >> 4) & 1 ? it->g : other;
+		atomic_fetch_add(&g_nested_total, 1);
+		if (k < 36) {
+			if (do_async(other, it->depth + 1, mix(r))) atomic_fetch_add(&g_nested_cross, 1);
+		} else if (k < 48) {
+			do_async(it->g, it->depth + 1, mix(r));
+		} else if (k < 64) {
+			do_notify(any, (x >> 5) & 1);
+		} else if (k < 76) {
+			do_plain(r >> 9);
+		} else {
+			int tok = do_enter(any);
+			if (tok) {
+				if ((x >> 6) & 1) usleep(x % 200);
+				do_leave(any, tok);
+			}
+		}
+	}
+}
+
 /* ------------------------------- workloads ------------------------------- */
 static void random_ops(void)
 {
-	int own[8], nown = 0;
+	int own[8], owng[8], nown = 0;
 	for (int i = 0; i < g_ops; i++) {
 		uint64_t r = vrt_rand();
 		unsigned k = (unsigned)(r % 100);
 		unsigned x = (unsigned)(r >> 8);
-		if (k < 24) {
-			if (nown < 2 && atomic_load(&g_next_tok) < MAXTOK - 4) own[nown++] = do_enter();
-			else if (nown) do_leave(own[--nown]);
-		} else if (k < 46) {
+		int g = (int)((r >> 40) % (unsigned)g_ng);
+		int room = atomic_load(&g_next_tok) < MAXTOK - 10;
+		if (k < 20) {
+			if (nown < 2 && room) { int t = do_enter(g); if (t) { own[nown] = t; owng[nown++] = g; } }
+			else if (nown) { nown--; do_leave(owng[nown], own[nown]); }
+		} else if (k < 38) {
 			if (nown) { /* leave the oldest own work */
-				int tok = own[0]; memmove(own, own + 1, sizeof(int) * (size_t)(--nown)); do_leave(tok);
-			} else if (atomic_load(&g_next_tok) < MAXTOK - 4) own[nown++] = do_enter();
+				int tok = own[0], tg = owng[0];
+				nown--;
+				memmove(own, own + 1, sizeof(int) * (size_t)nown); memmove(owng, owng + 1, sizeof(int) * (size_t)nown);
+				do_leave(tg, tok);
+			} else if (room) { int t = do_enter(g); if (t) { own[nown] = t; owng[nown++] = g; } }
 		} else if (k < 54) {
-			if (atomic_load(&g_next_tok) < MAXTOK - 4) do_async(x % 3 == 0 ? 0 : x % 400);
+			if (room) do_async(g, 0, mix(r));
 		} else if (k < 66) {
-			do_notify();
+			do_notify(g, (x >> 3) & 1);
 		} else if (k < 74) {
-			do_wait(1, 0);
+			do_wait(g, 1, 0);
 		} else if (k < 90 || nown) {
-			do_wait(2, 20000 + x % 1500000);
+			do_wait(g, 2, 20000 + x % 1500000);
 		} else {
-			/* untimed: only while this thread holds no work, so every other thread's work is
-			 * eventually left (threads holding work never block forever) */
-			do_wait(0, 0);
+			/* untimed: only while this thread holds no work (in any group), so every other thread's work is
+			 * eventually left (threads holding work never block forever; items never wait) */
+			do_wait(g, 0, 0);
 		}
 		vrt_progress();
 	}
-	while (nown) do_leave(own[--nown]);
+	while (nown) { nown--; do_leave(owng[nown], own[nown]); }
 }
 
-/* the schedule of Appendix C: thread A (role 3) notifies on the empty group and is stalled
+/* the schedule of Appendix C (on group 0): thread A (role 3) notifies on the empty group and is stalled
  * between its zero decision and the list snapshot; thread B enters, notifies, releases A */
 static void steered_ops(long me)
 {
 	if (me == 0) {
 		t_role = 3; t_stage = 0;
-		do_notify();
+		do_notify(0, 0);
 		t_role = 0;
 	} else if (me == 1) {
 		uint64_t dl = now_ns() + 5000000000ull;
 		while (!atomic_load(&g_t3_stalled) && now_ns() < dl) usleep(100);
-		int tok = do_enter();
-		int h = do_notify();
+		int tok = do_enter(0);
+		int h = do_notify(0, 0);
 		atomic_store(&g_release_t3, 1);
 		/* B's work is still in progress: it lasts until B's notification block has run (F2) or,
 		 * when the library does not exhibit F2, for half a second */
 		dl = now_ns() + 500000000ull;
 		while (h >= 0 && !atomic_load(&g_ran[h]) && now_ns() < dl) usleep(200);
-		do_leave(tok);
+		do_leave(0, tok);
 	}
 	vrt_progress();
 }
@@ -241,11 +375,12 @@ static void steer(struct dispatch_verif_site_s *s, const volatile void *addr, in
 }
 
 /* ------------------------------- projection ------------------------------- */
-static struct { uintptr_t p; int id; int st; } p_map[4096];   /* st: 1 listed, 2 snapped, 3 done */
+static struct { uintptr_t p; int id; int st; int g; } p_map[4096];   /* st: 1 listed, 2 snapped, 3 done */
 static int p_nmap, p_nid;
 static int p_tok[MAXTID], p_async[MAXTID], p_h[MAXTID], p_h2id[MAXH];
 static int p_inrmw[MAXTID];   /* the last record of the thread was a load / failed CAS of dg_state */
 
+static int p_grp(int obj) { return (obj >= 0 && obj < NG) ? obj : -1; }
 static int p_find(uintptr_t p)
 {
 	for (int i = p_nmap - 1; i >= 0; i--) if (p_map[i].p == p) return i;
@@ -278,40 +413,50 @@ static void proj(FILE *f, const vrt_rec_t *r)
 	switch (r->kind) {
 	case VRT_MARK:
 		if (!strcmp(r->name, "Reset")) p_reset();
-		fprintf(f, "{\"e\":\"%s\",\"kind\":%ld}\n", r->name, r->a);
+		fprintf(f, "{\"e\":\"%s\",\"kind\":%ld,\"ng\":%ld}\n", r->name, r->a, r->b);
 		break;
 	case VRT_API:
 		if (!strcmp(r->name, "CallEnter")) { p_tok[tid] = (int)r->a; p_async[tid] = 0; }
 		else if (!strcmp(r->name, "CallAsync")) { p_tok[tid] = (int)r->a; p_async[tid] = 1; }
-		else if (!strcmp(r->name, "CallLeave") || !strcmp(r->name, "AsyncEnd")) { p_tok[tid] = (int)r->a; }
-		else if (!strcmp(r->name, "CallNotify")) {
+		else if (!strcmp(r->name, "CallLeave")) { p_tok[tid] = (int)r->a; }
+		else if (!strcmp(r->name, "ItemStart"))
+			fprintf(f, "{\"e\":\"ItemStart\",\"t\":%d,\"tok\":%ld,\"grp\":%ld}\n", r->tid, r->a, r->c);
+		else if (!strcmp(r->name, "ItemEnd")) {
+			/* the library's leave for this item is the next thing this thread does */
+			p_tok[tid] = (int)r->a;
+			fprintf(f, "{\"e\":\"ItemEnd\",\"t\":%d,\"tok\":%ld,\"grp\":%ld}\n", r->tid, r->a, r->c);
+		} else if (!strcmp(r->name, "CallNotify")) {
 			p_h[tid] = (int)r->a;
-			fprintf(f, "{\"e\":\"CallNotify\",\"t\":%d,\"h\":%ld}\n", r->tid, r->a);
+			fprintf(f, "{\"e\":\"CallNotify\",\"t\":%d,\"h\":%ld,\"grp\":%ld}\n", r->tid, r->a, r->c);
 		} else if (!strcmp(r->name, "CallWait"))
-			fprintf(f, "{\"e\":\"CallWait\",\"t\":%d,\"kind\":\"%s\"}\n", r->tid, KN[r->a]);
+			fprintf(f, "{\"e\":\"CallWait\",\"t\":%d,\"kind\":\"%s\",\"grp\":%ld}\n", r->tid, KN[r->a], r->c);
 		else if (!strcmp(r->name, "RetWait"))
-			fprintf(f, "{\"e\":\"RetWait\",\"t\":%d,\"r\":%ld}\n", r->tid, r->a);
+			fprintf(f, "{\"e\":\"RetWait\",\"t\":%d,\"r\":%ld,\"grp\":%ld}\n", r->tid, r->a, r->c);
 		else if (!strcmp(r->name, "NotifyRan"))
-			fprintf(f, "{\"e\":\"NotifyRan\",\"t\":%d,\"n\":%d,\"h\":%ld,\"cearly\":%ld}\n", r->tid,
-					(r->a >= 0 && r->a < MAXH) ? p_h2id[r->a] : 0, r->a, r->b);
+			fprintf(f, "{\"e\":\"NotifyRan\",\"t\":%d,\"n\":%d,\"h\":%ld,\"cearly\":%ld,\"grp\":%ld}\n", r->tid,
+					(r->a >= 0 && r->a < MAXH) ? p_h2id[r->a] : 0, r->a, r->b, r->c);
 		else /* RetEnter RetLeave RetAsync RetNotify: the call has returned */
-			fprintf(f, "{\"e\":\"Ret\",\"t\":%d,\"op\":\"%s\"}\n", r->tid, r->name + 3);
+			fprintf(f, "{\"e\":\"Ret\",\"t\":%d,\"op\":\"%s\",\"grp\":%ld}\n", r->tid, r->name + 3, r->c);
 		break;
-	case VRT_PROBE:
-		if (!strcmp(r->name, "futex_wait"))
-			fprintf(f, "{\"e\":\"FutexWait\",\"t\":%d,\"val\":%ld,\"timed\":%ld}\n", r->tid, r->a, r->b);
+	case VRT_PROBE: {
+		int g = p_grp(r->obj);
+		if (!strcmp(r->name, "dispose")) { /* end of the object's life (_dispatch_dispose probe): C17's business */ }
+		else if (g < 0) { /* a futex of something else that happens to be registered (never a group's) */ }
+		else if (!strcmp(r->name, "futex_wait"))
+			fprintf(f, "{\"e\":\"FutexWait\",\"t\":%d,\"grp\":%d,\"val\":%ld,\"timed\":%ld}\n", r->tid, g, r->a, r->b);
 		else if (!strcmp(r->name, "futex_wait_ret"))
-			fprintf(f, "{\"e\":\"FutexRet\",\"t\":%d,\"rc\":%ld}\n", r->tid, r->a);
+			fprintf(f, "{\"e\":\"FutexRet\",\"t\":%d,\"grp\":%d,\"rc\":%ld}\n", r->tid, g, r->a);
 		else if (!strcmp(r->name, "futex_wake"))
-			fprintf(f, "{\"e\":\"FutexWake\",\"t\":%d}\n", r->tid);
-		else if (!strcmp(r->name, "dispose")) { /* end of the object's life (_dispatch_dispose probe): C17's business */ }
+			fprintf(f, "{\"e\":\"FutexWake\",\"t\":%d,\"grp\":%d}\n", r->tid, g);
 		else fprintf(f, "{\"e\":\"Unknown\",\"t\":%d,\"what\":\"probe %s\"}\n", r->tid, r->name);
 		break;
+	}
 	case VRT_ATOMIC: {
 		const char *op = r->site->dvs_op, *mo = r->site->dvs_mo;
-		if (r->obj != g_obj) {
+		int g = p_grp(r->obj);
+		if (g < 0) {
 			/* do_next of a continuation: only while it is a notifier on (or snapshotted from)
-			 * the group's list; afterwards the continuation belongs to the target queue */
+			 * a group's list; afterwards the continuation belongs to the target queue */
 			uintptr_t base = (uintptr_t)r->addr - (uintptr_t)r->off;
 			int i = p_find(base);
 			if (r->off != (long)offsetof(struct dispatch_continuation_s, do_next)) break;
@@ -330,35 +475,35 @@ static void proj(FILE *f, const vrt_rec_t *r)
 		if (!strcmp(op, "giveup")) {
 			/* the runtime attributes a give-up to the last traced word this thread loaded; only
 			 * a give-up that directly follows a load / failed CAS of dg_state is the group's */
-			if (inrmw) fprintf(f, "{\"e\":\"GiveUp\",\"t\":%d}\n", r->tid);
+			if (inrmw) fprintf(f, "{\"e\":\"GiveUp\",\"t\":%d,\"grp\":%d}\n", r->tid, g);
 			break;
 		}
 		if (off == (long)offsetof(struct dispatch_group_s, dg_state) && r->size == 8) {
 			if (!strcmp(op, "add")) {
-				fprintf(f, "{\"e\":\"Add\",\"t\":%d,\"tok\":%d", r->tid, p_tok[tid]);
+				fprintf(f, "{\"e\":\"Add\",\"t\":%d,\"grp\":%d,\"tok\":%d", r->tid, g, p_tok[tid]);
 				p_word(f, "o", r->oldv, 1); p_word(f, "n", r->newv, 1);
 				fprintf(f, ",\"mo\":\"%s\"}\n", mo);
 				p_tok[tid] = -1;
 			} else if (!strcmp(op, "load")) {
 				p_inrmw[tid] = 1;
-				fprintf(f, "{\"e\":\"LoadS\",\"t\":%d", r->tid); p_word(f, "o", r->oldv, 1);
+				fprintf(f, "{\"e\":\"LoadS\",\"t\":%d,\"grp\":%d", r->tid, g); p_word(f, "o", r->oldv, 1);
 				fprintf(f, ",\"mo\":\"%s\"}\n", mo);
 			} else if (!strcmp(op, "cmpxchg")) {
 				p_inrmw[tid] = !r->ok;
-				fprintf(f, "{\"e\":\"Cas\",\"t\":%d,\"ok\":%d", r->tid, r->ok);
+				fprintf(f, "{\"e\":\"Cas\",\"t\":%d,\"grp\":%d,\"ok\":%d", r->tid, g, r->ok);
 				p_word(f, "o", r->oldv, 1); p_word(f, "n", r->newv, 1);
 				fprintf(f, ",\"mo\":\"%s\"}\n", mo);
 			} else fprintf(f, "{\"e\":\"Unknown\",\"t\":%d,\"what\":\"%s on dg_state\"}\n", r->tid, op);
 		} else if (off == (long)offsetof(struct dispatch_group_s, dg_bits) && r->size == 4) {
 			if (!strcmp(op, "sub")) {
-				fprintf(f, "{\"e\":\"Sub\",\"t\":%d,\"tok\":%d,\"async\":%d", r->tid, p_tok[tid], p_async[tid]);
+				fprintf(f, "{\"e\":\"Sub\",\"t\":%d,\"grp\":%d,\"tok\":%d,\"async\":%d", r->tid, g, p_tok[tid], p_async[tid]);
 				p_word(f, "o", r->oldv, 0); p_word(f, "n", r->newv, 0);
 				fprintf(f, ",\"mo\":\"%s\"}\n", mo);
 				p_tok[tid] = -1;
 			} else fprintf(f, "{\"e\":\"Unknown\",\"t\":%d,\"what\":\"%s on dg_bits\"}\n", r->tid, op);
 		} else if (off == (long)offsetof(struct dispatch_group_s, dg_gen) && r->size == 4) {
 			if (!strcmp(op, "load"))
-				fprintf(f, "{\"e\":\"LoadG\",\"t\":%d,\"g\":%lu,\"mo\":\"%s\"}\n", r->tid, (unsigned long)r->oldv, mo);
+				fprintf(f, "{\"e\":\"LoadG\",\"t\":%d,\"grp\":%d,\"g\":%lu,\"mo\":\"%s\"}\n", r->tid, g, (unsigned long)r->oldv, mo);
 			else fprintf(f, "{\"e\":\"Unknown\",\"t\":%d,\"what\":\"%s on dg_gen\"}\n", r->tid, op);
 		} else if (off == (long)offsetof(struct dispatch_group_s, dg_notify_tail)) {
 			if (!strcmp(op, "xchg")) {
@@ -366,19 +511,19 @@ static void proj(FILE *f, const vrt_rec_t *r)
 				if (r->newv) {
 					if (p_nmap < 4096) {
 						p_map[p_nmap].p = (uintptr_t)r->newv; p_map[p_nmap].id = newid = ++p_nid;
-						p_map[p_nmap].st = 1; p_nmap++;
+						p_map[p_nmap].st = 1; p_map[p_nmap].g = g; p_nmap++;
 					}
 					if (p_h[tid] >= 0 && p_h[tid] < MAXH) p_h2id[p_h[tid]] = newid;
 				} else {
-					for (int i = 0; i < p_nmap; i++) if (p_map[i].st == 1) p_map[i].st = 2;
+					for (int i = 0; i < p_nmap; i++) if (p_map[i].st == 1 && p_map[i].g == g) p_map[i].st = 2;
 				}
-				fprintf(f, "{\"e\":\"XchgT\",\"t\":%d,\"old\":%d,\"new\":%d,\"mo\":\"%s\"}\n", r->tid, oldid, newid, mo);
+				fprintf(f, "{\"e\":\"XchgT\",\"t\":%d,\"grp\":%d,\"old\":%d,\"new\":%d,\"mo\":\"%s\"}\n", r->tid, g, oldid, newid, mo);
 			} else fprintf(f, "{\"e\":\"Unknown\",\"t\":%d,\"what\":\"%s on dg_notify_tail\"}\n", r->tid, op);
 		} else if (off == (long)offsetof(struct dispatch_group_s, dg_notify_head)) {
 			if (!strcmp(op, "store"))
-				fprintf(f, "{\"e\":\"StoreH\",\"t\":%d,\"v\":%d,\"mo\":\"%s\"}\n", r->tid, p_id((uintptr_t)r->newv), mo);
+				fprintf(f, "{\"e\":\"StoreH\",\"t\":%d,\"grp\":%d,\"v\":%d,\"mo\":\"%s\"}\n", r->tid, g, p_id((uintptr_t)r->newv), mo);
 			else if (!strcmp(op, "load"))
-				fprintf(f, "{\"e\":\"LoadH\",\"t\":%d,\"v\":%d,\"mo\":\"%s\"}\n", r->tid, p_id((uintptr_t)r->oldv), mo);
+				fprintf(f, "{\"e\":\"LoadH\",\"t\":%d,\"grp\":%d,\"v\":%d,\"mo\":\"%s\"}\n", r->tid, g, p_id((uintptr_t)r->oldv), mo);
 			else fprintf(f, "{\"e\":\"Unknown\",\"t\":%d,\"what\":\"%s on dg_notify_head\"}\n", r->tid, op);
 		} else {
 			fprintf(f, "{\"e\":\"Unknown\",\"t\":%d,\"what\":\"%s at offset %ld\"}\n", r->tid, op, off);
@@ -386,6 +531,12 @@ static void proj(FILE *f, const vrt_rec_t *r)
 		break;
 	}
 	}
+}
+
+static void hang(const char *what, long n)
+{
+	fprintf(stderr, "ORACLE-FAIL C07 %s (%ld)\n", what, n);
+	vrt_fatal("Hang", n, 71);
 }
 
 int main(int argc, char **argv)
@@ -405,10 +556,15 @@ int main(int argc, char **argv)
 	vrt_add_class("dg_notify", 2);   /* "_os_mpsc_tail (dg, dg_notify, )" / "_os_mpsc_head (dg, dg_notify, )" */
 	vrt_add_class("do_next", 3);     /* links of the continuations (only registered ones are recorded) */
 	vrt_add_class("__n", 2);         /* os_mpsc_get_head / os_mpsc_get_next loads */
+	/* only API events and vrt_progress() feed the watchdog: a waiter left behind that keeps being interrupted
+	 * (EINTR -> reload of dg_gen -> futex again) produces records for ever but is a hang all the same */
+	vrt_set_record_progress(0);
 	vrt_set_hang_seconds(25);
 	(void)vrt_tid(); /* main = thread 0 */
 	g_nq = dispatch_queue_create("c07.notify", DISPATCH_QUEUE_SERIAL);
-	g_wq = dispatch_queue_create("c07.work", DISPATCH_QUEUE_CONCURRENT);
+	g_wq[0] = dispatch_queue_create("c07.work", DISPATCH_QUEUE_CONCURRENT);
+	g_wq[1] = dispatch_queue_create("c07.work2", DISPATCH_QUEUE_SERIAL);
+	for (int h = 0; h < MAXH; h++) g_hidx[h] = h;
 	pthread_barrier_init(&g_bar, NULL, NT + 1);
 	pthread_t th[NT];
 	for (long i = 0; i < NT; i++) pthread_create(&th[i], NULL, worker, (void *)i);
@@ -417,56 +573,84 @@ int main(int argc, char **argv)
 		/* steered executions are spread over the run */
 		int kind = (g_steered && (e % (total / g_steered)) == 0 && e / (total / g_steered) < g_steered) ? 1 : 0;
 		vrt_pause(1);
-		g_grp = dispatch_group_create();
+		for (int g = 0; g < NG; g++) g_grp[g] = dispatch_group_create();
 		vrt_unregister_all();
-		g_obj = vrt_register(g_grp, malloc_usable_size(g_grp), 1);
+		for (int g = 0; g < NG; g++) {
+			g_objs[g] = vrt_register(g_grp[g], malloc_usable_size(g_grp[g]), 1);
+			if (g_objs[g] != g) { fprintf(stderr, "registration order\n"); return 3; }
+		}
 		vrt_pause(0);
-		atomic_store(&g_shadow, 0); atomic_store(&g_sure_mask, 0);
-		atomic_store(&g_next_tok, 0); atomic_store(&g_next_h, 0);
+		g_ng = 2 + (e % 3 == 2);
+		for (int g = 0; g < NG; g++) {
+			atomic_store(&g_shadow[g], 0); atomic_store(&g_entered[g], 0); atomic_store(&g_done[g], 0);
+		}
+		atomic_store(&g_next_tok, 0); atomic_store(&g_next_h, 0); atomic_store(&g_next_plain, 0);
+		atomic_store(&g_pending, 0);
+		memset(g_items, 0, sizeof(g_items)); memset(g_plain, 0, sizeof(g_plain));
 		for (int h = 0; h < MAXH; h++) {
-			atomic_store(&g_snap[h], 0); atomic_store(&g_ran[h], 0);
+			atomic_store(&g_snap[h], 0); atomic_store(&g_ran[h], 0); atomic_store(&g_hgrp[h], 0);
 			atomic_store(&g_registered[h], 0); atomic_store(&g_early[h], 0);
 		}
 		atomic_store(&g_t3_stalled, 0); atomic_store(&g_release_t3, 0);
 		atomic_store(&g_exec_kind, kind);
 		if (kind == 1) vrt_set_perturb(0);
-		vrt_mark("Reset", kind, 0, 0);
+		vrt_mark("Reset", kind, g_ng, 0);
 		pthread_barrier_wait(&g_bar);
 		pthread_barrier_wait(&g_bar);
 		vrt_set_perturb(perturb);
-		/* all explicit enters have been left; asynchronous work finishes by itself:
-		 * an untimed wait must return 0 (a hang here is a waiter left behind) */
-		if (do_wait(0, 0) != 0) oracle_fail("final untimed wait returned non-zero", 0, 0);
-		/* the leaves of the asynchronous work have returned once a barrier has run */
-		dispatch_barrier_sync(g_wq, ^{});
-		/* the count is zero and stays zero: every notification must have been submitted, so it
-		 * runs; one that does not is left behind */
+		/* every block (items at every nesting depth, plain asyncs) has been run: nothing submits any more */
 		uint64_t dl = now_ns() + 15000000000ull;
+		while (atomic_load(&g_pending) != 0) {
+			if (now_ns() > dl) hang("submitted blocks never ran", atomic_load(&g_pending));
+			usleep(200);
+			vrt_progress();
+		}
+		/* all explicit enters have been left, every item's block has returned and the library leaves right
+		 * after: an untimed wait on EVERY group must return 0 (a hang here is a waiter left behind, or a group
+		 * whose count does not return to zero) */
+		for (int g = 0; g < NG; g++)
+			if (do_wait(g, 0, 0) != 0) oracle_fail("final untimed wait returned non-zero", g, 0);
+		/* the leaves of the asynchronous work have returned once a barrier has run */
+		dispatch_barrier_sync(g_wq[0], ^{});
+		dispatch_barrier_sync(g_wq[1], ^{});
+		/* the counts are zero and stay zero: every notification must have been submitted, so it
+		 * runs; one that does not is left behind */
+		dl = now_ns() + 15000000000ull;
 		for (;;) {
 			int missing = 0;
 			for (int h = 0; h < MAXH; h++)
 				if (atomic_load(&g_registered[h]) && atomic_load(&g_ran[h]) == 0) missing++;
 			if (!missing) break;
-			if (now_ns() > dl) {
-				fprintf(stderr, "ORACLE-FAIL C07 %d notification(s) never ran although the count is zero\n", missing);
-				vrt_fatal("Hang", missing, 71);
-			}
+			if (now_ns() > dl) hang("notification(s) never ran although the count is zero", missing);
 			usleep(200);
+			vrt_progress();
 		}
 		dispatch_sync(g_nq, ^{});   /* a duplicate submission would have run by now */
 		for (int h = 0; h < MAXH; h++)
 			if (atomic_load(&g_registered[h]) && atomic_load(&g_ran[h]) != 1)
 				oracle_fail("notification block did not run exactly once", h, atomic_load(&g_ran[h]));
+		for (int t = 1; t <= MAXTOK; t++)
+			if (g_items[t].used && atomic_load(&g_items[t].ran) != 1)
+				oracle_fail("dispatch_group_async block did not run exactly once", t, atomic_load(&g_items[t].ran));
+		for (int i = 0; i < MAXPLAIN; i++)
+			if (g_plain[i].used && atomic_load(&g_plain[i].ran) != 1)
+				oracle_fail("dispatch_async block did not run exactly once", i, atomic_load(&g_plain[i].ran));
+		/* every group is back to "count zero, no flags" (plain read: quiescent) */
+		for (int g = 0; g < NG; g++) {
+			uint32_t bits = (uint32_t)*(volatile uint64_t *)&g_grp[g]->dg_state;
+			if (bits != 0) oracle_fail("group not back to count zero / no flags at quiescence (group, low word)", g, (long)bits);
+		}
 		if (kind == 1 && atomic_load(&g_early[1])) atomic_fetch_add(&g_f2_steer_hits, 1);
 		vrt_mark("End", kind, 0, 0);
 		vrt_pause(1);
-		dispatch_release(g_grp);
+		for (int g = 0; g < NG; g++) dispatch_release(g_grp[g]);
 		vrt_pause(0);
 		vrt_progress();
 	}
 	for (int i = 0; i < NT; i++) pthread_join(th[i], NULL);
 	vrt_dump();
-	fprintf(stderr, "records=%zu overflow=%d early_blocks=%d steered_f2_hits=%d\n", vrt_count(), vrt_overflowed(),
+	fprintf(stderr, "records=%zu overflow=%d nested=%d cross_group_async=%d early_blocks=%d steered_f2_hits=%d\n", vrt_count(),
+			vrt_overflowed(), atomic_load(&g_nested_total), atomic_load(&g_nested_cross),
 			atomic_load(&g_early_total), atomic_load(&g_f2_steer_hits));
 	return atomic_load(&g_fail) ? 2 : 0;
 }
